@@ -25,14 +25,41 @@ def gen_config():
 
 def incs():
     return ['-I' + gen_config(), '-I' + os.path.join(REPO, 'include'), '-I' + os.path.join(REPO, 'src'),
+            '-I' + os.path.join(REPO, 'src/djinterop/engine/v1'), '-I' + os.path.join(REPO, 'src/djinterop/engine/v2'), '-I' + os.path.join(REPO, 'src/djinterop/engine'),
             '-I' + os.path.join(REPO, 'ext/sqlite_modern_cpp'), '-I' + os.path.join(REPO, 'ext/date'), '-I' + os.path.join(VERIF, 'harness')]
 
+# clang-compatibility rewrites of /repo sources (the project is built with g++; clang 14 rejects one construct).  Applied to a
+# copy under build/patched/ on every run; if the pattern is not found the file is used unchanged (and clang reports the error).
+REPO_PATCHES = {
+    'src/djinterop/engine/v1/engine_storage.cpp': [(
+        # delegating constructor initialised from a prvalue of the same class: g++ elides the copy, clang 14 asks for the
+        # (deleted) copy constructor.  The rewrite performs the same two calls in member-initialiser form.
+        re.compile(r'engine_storage::engine_storage\(const std::string& directory\) :\s*engine_storage\{load_existing\(directory\)\}'),
+        'engine_storage::engine_storage(const std::string& directory) :\n    directory{directory}, db{load_legacy_sqlite_database(directory)},\n    schema{schema::detect_schema(db, "music")}')],
+}
+def patched_repo_file(rel):
+    src = os.path.join(REPO, rel)
+    txt = open(src).read(); out = txt
+    for rx, rep in REPO_PATCHES[rel]: out = rx.sub(rep, out)
+    if out == txt: return src
+    dst = os.path.join(BUILD, 'patched', rel)
+    os.makedirs(os.path.dirname(dst), exist_ok=True)
+    if not os.path.exists(dst) or open(dst).read() != out: open(dst, 'w').write(out)
+    return dst
+
 def harness_src(name):
-    """harness sources hard-code /repo in their #include lines; rewrite when VERIF_REPO points elsewhere"""
+    """harness sources hard-code /repo in their #include lines; rewritten when VERIF_REPO points elsewhere or when an
+    included /repo source needs a clang-compatibility rewrite"""
     p = os.path.join(VERIF, 'harness', name)
-    if REPO == '/repo': return p
+    txt = open(p).read(); out = txt
+    for rel in REPO_PATCHES:
+        inc = '"/repo/' + rel + '"'
+        if inc in out: out = out.replace(inc, '"' + patched_repo_file(rel) + '"')
+    if REPO != '/repo': out = out.replace('"/repo/', '"' + REPO + '/')
+    if out == txt: return p
+    os.makedirs(BUILD, exist_ok=True)
     q = os.path.join(BUILD, 'h_' + hashlib.md5(REPO.encode()).hexdigest()[:8] + '_' + name)
-    open(q, 'w').write(open(p).read().replace('"/repo/', '"' + REPO + '/'))
+    if not os.path.exists(q) or open(q).read() != out: open(q, 'w').write(out)
     return q
 
 def compile_ir(name, defines=(), link_string=True, tag='', ubsan=True):
